@@ -29,7 +29,7 @@ def profile(name, **kw):
         callers=(1, 3), small=False, check_all_every=16, nontarget=True,
         tx=dict(edit=6, query=3, derive_edit=0, relabel=0, twin=0, pair=0, mutant=0,
                 enum=0, enant=0, react=0, persist=0, algebra=0, faults=0, flip=0,
-                isomers=0, symnum=0, wlpair=0, large=0, build=1),
+                isomers=0, symnum=0, wlpair=0, large=0, hubs=0, build=1),
         fault_rate=(0.0, 0.15),
     )
     tx = dict(base["tx"])
@@ -44,8 +44,8 @@ profile("C19", tx=dict(edit=6, query=2, faults=4, relabel=1, build=1), steps=(30
 profile("C10", tx=dict(edit=3, query=1, derive_edit=8, relabel=1, react=1, persist=1, algebra=2, isomers=1, build=1),
         nontarget=True, check_all_every=4, callers=(2, 4))
 profile("C11", tx=dict(edit=3, query=2, relabel=8, twin=1, derive_edit=1, algebra=1, large=0.1, build=1))
-profile("C01", tx=dict(edit=4, query=1, twin=8, relabel=1, derive_edit=1, large=0.15, build=2), max_atoms=(1, 12))
-profile("C03", tx=dict(edit=4, query=2, twin=8, pair=1, large=0.15, build=2), max_atoms=(1, 12))
+profile("C01", tx=dict(edit=4, query=1, twin=8, relabel=1, derive_edit=1, large=0.15, hubs=0.2, build=2), max_atoms=(1, 12))
+profile("C03", tx=dict(edit=4, query=2, twin=8, pair=1, large=0.15, hubs=0.2, build=2), max_atoms=(1, 12))
 profile("C02", tx=dict(edit=4, pair=5, mutant=6, derive_edit=2, wlpair=5, build=2), small=True, max_atoms=(2, 8))
 profile("C05", tx=dict(edit=3, enum=8, symnum=2, derive_edit=2, wlpair=4, build=2), small=True, max_atoms=(2, 13),
         callers=(2, 4))
@@ -53,7 +53,7 @@ profile("C06", tx=dict(edit=3, enant=6, derive_edit=2, build=2), small=True, max
         classes=("SMG", "SCRG"))
 profile("C08", tx=dict(edit=2, react=8, derive_edit=2, build=1), classes=("MG", "SMG", "CRG", "SCRG"), max_atoms=(3, 8))
 profile("C15", tx=dict(edit=5, persist=8, query=1, relabel=1, build=2))
-profile("C16", tx=dict(edit=3, pair=4, mutant=4, flip=4, isomers=4, react=2, build=3), small=True, max_atoms=(2, 8),
+profile("C16", tx=dict(edit=3, pair=4, mutant=4, flip=4, isomers=4, react=2, hubs=0.5, build=3), small=True, max_atoms=(2, 8),
         callers=(2, 3))
 profile("C17", tx=dict(edit=4, algebra=8, query=1, large=0.15, build=2), max_atoms=(3, 14))
 
@@ -496,6 +496,18 @@ class Gen:
                 out.append(dict(k="add_bond", s=s, a=x, b=y, kw={"reaction": br}))
             if pb_ is not None:
                 out.append(dict(k="set_bond_attr", s=s, a=pb_[0], b=pb_[1], key="reaction", val=br))
+        # bonds that are gone but still have a descriptor / change table
+        orphans = sorted({tuple(sorted(b)) for b in list(m.bstereo) + list(m.bchange) if b not in m.bonds})
+        for x, y in orphans[:2]:
+            mk = lambda c: (c, (None, None, x, y, None, None), 0 if c == "PlanarBond" else 1)
+            if m.is_stereo:
+                out.append(dict(k="set_bstereo", s=s, d=model.list_desc(mk(rng.choice(geom.BOND_CLASSES)))))
+            if m.has_changes:
+                o = dict(k="set_bchange", s=s, broken=None, fleeting=None, formed=None)
+                o[rng.choice(ROLES).lower()] = model.list_desc(mk(rng.choice(geom.BOND_CLASSES)))
+                out.append(o)
+            out.append(dict(k="set_bond_attr", s=s, a=x, b=y, key=rng.choice(BATTR_KEYS), val=1))
+            out.append(dict(k="remove_bond", s=s, a=x, b=y))
         if m.is_stereo:
             out.append(dict(k="set_astereo", s=s, d=model.list_desc(self.wild_desc(m, True, centre_present=False))))
             out.append(dict(k="set_bstereo", s=s, d=model.list_desc(self.wild_desc(m, False, centre_present=False))))
@@ -1112,6 +1124,45 @@ class Gen:
                 yield dict(k="gen_close", g=e, how="close")
         for s in slots:
             if s in self.w.slots and rng.random() < 0.7 and not self.w.slots[s].locks:
+                yield dict(k="drop", s=s)
+
+    def tx_hubs(self):
+        """two molecules with hypervalent centres (7 neighbours, no descriptor)
+        that distribute the same ligands differently: the (element, neighbour
+        elements) multisets differ, so must the hashes"""
+        rng = self.rng
+        if len(self.w.slots) + 2 > self.w.max_slots:
+            for s in self.graphs(unlocked=True)[:2]:
+                yield dict(k="drop", s=s)
+        kind = rng.choice([k for k in self.cfg["classes"] if k in ("SMG", "SCRG", "MG", "CRG")])
+        hub, x, y = rng.sample([53, 9, 17, 35, 75, 1, 8], 3)
+        deg = rng.choice((7, 7, 6, 5))
+        base = rng.choice((0, 100, -40))
+        slots = []
+        splits = rng.sample(range(0, deg + 1), 2)
+        for k in splits:
+            atoms, bonds = [], []
+            nxt = base
+            for h, nx in ((0, k), (1, deg - k)):
+                c = nxt
+                nxt += 1
+                atoms.append([c, hub])
+                for i in range(deg):
+                    atoms.append([nxt, x if i < nx else y])
+                    bonds.append([c, nxt, None])
+                    nxt += 1
+            rng.shuffle(atoms)
+            rng.shuffle(bonds)
+            s = self.slot_id()
+            slots.append(s)
+            yield dict(k="spec", dst=s, cls=kind, atoms=atoms, bonds=bonds)
+        a, b = slots
+        if self.w.graph(a) is None or self.w.graph(b) is None:
+            return
+        yield dict(k="probe_pair", s1=a, s2=b)
+        yield dict(k="probe_twin", s=a, seed=rng.randrange(2 ** 31), route="fresh")
+        for s in slots:
+            if s in self.w.slots and not self.w.slots[s].locks:
                 yield dict(k="drop", s=s)
 
     def tx_mutant(self):
